@@ -92,7 +92,11 @@ def evaluate(case):
         got = _describe(lines[i])
         for field in ("text", "label", "name", "span"):
             if got[field] != e[field]:
-                return Result(False, "%s-mismatch:%s" % (field, e["kind"]), nontrivial, labels,
+                tag = ""
+                if (field == "text" and "blank_at_col72" in feats and
+                        got["text"].replace(" ", "") == e["text"].replace(" ", "")):
+                    tag = "+col72blank"
+                return Result(False, "%s-mismatch:%s%s" % (field, e["kind"], tag), nontrivial, labels,
                               {"index": i, "expected": e, "got": got,
                                "source_lines": case["src"].split("\n")[e["span"][0] - 1:e["span"][1]]})
     if len(lines) > len(exp):
@@ -142,3 +146,9 @@ def evaluate(case):
             return Result(False, "walk-drain-differs", nontrivial, labels,
                           {"cursor": cursor, "expected_len": len(model) - cursor, "got_len": len(rest)})
     return Result(True, None, nontrivial, labels)
+
+
+def kf_match(entry, case, res):
+    if entry.get("signature", {}).get("matcher") == "col72blank":
+        return (res.bucket or "").endswith("+col72blank")
+    return False
